@@ -251,6 +251,8 @@ def check(col: Collector, tier: str):
     check_core_scope_semantics(col, "C01.R14", repo)
     import_obligations(col, "C01.R13", "c04", lambda o: o.rule in ("C04.R1", "C04.R2", "C04.R3", "C04.R4"),
                        "code emitted outside its guard also changes which rows are written: the guarded loop runs (and may throw) for events the guard rejects")
+    import_obligations(col, "C01.R8", "c16", lambda o: o.rule == "C16.R5" and o.detail == "-d-file-is-sole-input",
+                       "rows of a file that was not asked for are rows the query does not denote")
     import_obligations(col, "C01.R13", "c13", lambda o: o.rule in ("C13.R2", "C13.R7") or o.detail in ("binary-template", "comparison-template-and-type", "unary-template", "operands-in-order"),
                        "the value written is the value of this C++ expression")
 
